@@ -42,7 +42,8 @@ func unusualSpecs(rng *rand.Rand, n int) []struct {
 	dates := []string{"%%CreationDate: 1991-09-13 11:15:12 +0000 UTC", "%%CreationDate: Fri Sep 13 11:15:12 1991",
 		"%%CreationDate: Fri, 13 Sep 1991 11:15:12", "%%CreationDate: Fri Sep 13 1991", "%%CreationDate: yesterday", ""}
 	strs := []string{"()", "(a)", "(two\\nlines)", "(tab\\there)", "(paren \\( open)", "(\\251 1990)", "<00ff>", "(multi\nline literal)"}
-	names := []string{"A", "B.alt", "f_i", "u1F600", "$odd*name!", "@", "~", "a-b+c", "x;y", "zero.sups"}
+	names := []string{"A", "B.alt", "f_i", "u1F600", "$odd*name!", "@", "~", "a-b+c", "x;y", "zero.sups", "B", "C", "space"}
+	stdPos := map[string]int{"A": 65, "B": 66, "C": 67, "space": 32}
 	for i := 0; i < n; i++ {
 		f := &indep.FontSpec{FontName: "Unusual" + strconv.Itoa(i), Toks: map[string][]indep.Tok{}, Subrs: std, Encoding: map[int]string{}}
 		desc := []string{}
@@ -78,14 +79,50 @@ func unusualSpecs(rng *rand.Rand, n int) []struct {
 			}
 			if rng.Intn(5) != 0 {
 				t = append(t, num(int64(rng.Intn(200))), num(int64(rng.Intn(200))), cmd("rmoveto"))
-				for s := 0; s < 1+rng.Intn(4); s++ {
-					switch rng.Intn(3) {
+				// a number operand: an integer, or a quotient through div whose value is in
+				// general not representable as p/q with q <= 107 (the writer's quantisation)
+				dens := []int64{3, 7, 250, 300, 1000, 211}
+				fracMode := rng.Intn(3) // 0: integers only, 1: mixed, 2: every operand fractional, errors of one sign
+				arg := func() []indep.Tok {
+					v := int64(rng.Intn(300) - 150)
+					if fracMode == 0 || (fracMode == 1 && rng.Intn(2) == 0) {
+						return []indep.Tok{num(v)}
+					}
+					d := dens[rng.Intn(len(dens))]
+					if fracMode == 2 {
+						d = []int64{250, 300, 1000}[rng.Intn(3)]
+						return []indep.Tok{num(10*d + 1), num(d), cmd("div")} // 10 + 1/d each time: errors add up if not compensated
+					}
+					return []indep.Tok{num(v*d + int64(rng.Intn(int(d)))), num(d), cmd("div")}
+				}
+				args := func(k int) []indep.Tok {
+					var o []indep.Tok
+					for j := 0; j < k; j++ {
+						o = append(o, arg()...)
+					}
+					return o
+				}
+				nseg := 1 + rng.Intn(4)
+				if rng.Intn(4) == 0 {
+					nseg = 8 + rng.Intn(12)
+				}
+				if fracMode != 0 {
+					desc = append(desc, fmt.Sprintf("fractional-path-%d", nseg))
+				}
+				for s := 0; s < nseg; s++ {
+					switch rng.Intn(6) {
 					case 0:
-						t = append(t, num(int64(rng.Intn(300)-150)), num(3), cmd("div"), num(int64(rng.Intn(300)-150)), cmd("rlineto"))
+						t = append(t, append(args(2), cmd("rlineto"))...)
 					case 1:
-						t = append(t, num(int64(rng.Intn(300)-150)), cmd("hlineto"))
+						t = append(t, append(args(1), cmd("hlineto"))...)
+					case 2:
+						t = append(t, append(args(1), cmd("vlineto"))...)
+					case 3:
+						t = append(t, append(args(4), cmd("hvcurveto"))...)
+					case 4:
+						t = append(t, append(args(4), cmd("vhcurveto"))...)
 					default:
-						t = append(t, num(10), num(20), num(30), num(-5), num(int64(rng.Intn(40))), num(15), cmd("rrcurveto"))
+						t = append(t, append(args(6), cmd("rrcurveto"))...)
 					}
 				}
 				t = append(t, cmd("closepath"))
@@ -95,7 +132,26 @@ func unusualSpecs(rng *rand.Rand, n int) []struct {
 			f.Toks[name] = t
 			f.Encoding[40+g*9] = name
 		}
-		f.Encoding[250] = "nosuchglyph" // an encoding naming an absent glyph
+		if rng.Intn(3) == 0 {
+			// every assigned code at its StandardEncoding position, the code of one existing
+			// standard-named glyph left unassigned: a proper subset of StandardEncoding
+			f.Encoding = map[int]string{}
+			skipped := false
+			for _, gname := range f.Glyphs {
+				if c, ok := stdPos[gname]; ok {
+					if !skipped {
+						skipped = true
+						continue
+					}
+					f.Encoding[c] = gname
+				}
+			}
+			if skipped {
+				desc = append(desc, "std-subset-with-hole")
+			}
+		} else {
+			f.Encoding[250] = "nosuchglyph" // an encoding naming an absent glyph
+		}
 		s := func() string { return strs[rng.Intn(len(strs))] }
 		f.Info = []string{"/version " + s() + " readonly def", "/Notice " + s() + " readonly def", "/FullName " + s() + " readonly def",
 			"/FamilyName " + s() + " readonly def", "/Weight " + s() + " readonly def",
